@@ -271,6 +271,10 @@ class OutgoingRIB(Cache):
 
         self._pending_withdraws.setdefault(route_family, {})[nlri_index] = (nlri, attrs if attrs else AttrsClass())
 
+        # a refresh queued before this withdraw must not announce the route again
+        if self._refresh_routes:
+            self._refresh_routes = [route for route in self._refresh_routes if route.index() != route_index]
+
         # Update cache to remove the announced route
         self.update_cache_withdraw(nlri)
 
